@@ -61,31 +61,56 @@ def run(repo, rep, tier):
     # ---- rule 3: level filter ---------------------------------------------------------------------------------------------
     pr = repo.func('outputbuffer', 'OutputBuffer._print')
     rep.saw(pr)
-    body = [s for s in pr.body if not (isinstance(s, ast.Expr) and isinstance(s.value, ast.Constant))]
-    g = body[0] if body else None
-    ok = isinstance(g, ast.If) and len(g.body) == 1 and isinstance(g.body[0], ast.Return) and g.body[0].value is None and not g.orelse
-    rep.check('level-filter', 'the filter is the first statement of _print and only returns', ok, g or pr, 'minimum-level filter is not a leading bare return')
-    json_exempt = False
-    if ok:
-        from sa.abseval import ev as _ev, Unknown as _Unknown
-        rows_bad = []
-        drops_json = False
-        for ap_, js_, rank_, min_ in itertools.product([False, True], [False, True], [0, 1, 2], [0, 1, 2]):
-            env = {'always_print': ap_, 'self.json': js_, 'self.get_level(level)': rank_, 'self.__level': min_}
-            try:
-                got = bool(_ev(g.test, env))
-            except _Unknown as e:
-                raise AnalysisError('level filter condition not interpretable: %s' % e)
-            rep.evals()
-            if not js_ and got != ((ap_ is False) and rank_ < min_):
-                rows_bad.append((ap_, rank_, min_, got))
-            if js_ and got:
-                drops_json = True
-        rep.check('level-filter', 'filter condition: a line is dropped iff it is not always_print and its level ranks below the minimum (text mode, 18 cases)', not rows_bad, g,
-                  'filter condition `%s` is wrong: always_print=%s level rank %s minimum %s -> dropped=%s' % ((unparse(g.test),) + (rows_bad[0] if rows_bad else (None,) * 4)))
-        json_exempt = not drops_json
-    others = [n for s in body[1:] for n in ast.walk(s) if isinstance(n, ast.Attribute) and n.attr == '__level']
-    rep.check('level-filter', 'nothing after the filter reads the minimum level', not others, others[0] if others else pr, 'minimum level also used after the filter')
+    # OutputBuffer._print interpreted (sa/listinterp.py; helper methods of the class in place) for every combination of always_print x JSON mode x level x minimum
+    # level x buffered / in a section: a line is stored (or printed) exactly when it is always_print, or JSON mode is on, or its level ranks at least the minimum;
+    # what is stored is the text itself (colours off)
+    from sa.listinterp import Interp as _I
+    from sa.abseval import Unknown as _Unknown, Opaque as _Opq
+    levels_ = list(ce.lookup('outputbuffer', 'OutputBuffer.LEVELS'))
+    pparams = [a.arg for a in pr.args.args]
+    if pparams[:3] != ['self', 'level', 's']:
+        raise AnalysisError('OutputBuffer._print: parameters are %s' % pparams)
+
+    def _resolver(call):
+        f = call.func
+        if isinstance(f, ast.Attribute) and isinstance(f.value, ast.Name) and f.value.id == 'self' and f.attr not in ('_print',) and repo.has_func('outputbuffer', 'OutputBuffer.' + f.attr):
+            return repo.func('outputbuffer', 'OutputBuffer.' + f.attr)
+        return None
+    rows_bad = []
+    drops_json = False
+    nrows = 0
+    for ap_, js_, lvl, min_, buffered, in_sec in itertools.product([False, True], [False, True], ['info', 'warn', 'fail', 'good'], [0, 1, 2], [True, False], [False, True]):
+        env = {'self': _Opq(), 'level': lvl, 's': '<text>', 'line_ended': True, 'always_print': ap_, 'self.json': js_, 'self.__level': min_, 'self.use_colors': False, 'self.colors_supported': False,
+               'self.buffer_output': buffered, 'self.in_section': in_sec, 'self.section': [], 'self.buffer': [], 'self.line_ended': True, 'self.LEVELS': tuple(levels_), 'OutputBuffer.LEVELS': tuple(levels_), 'sys.maxsize': 2 ** 63 - 1}
+        printed = []
+
+        def hook_p(call, e, interp, printed=printed):
+            if unparse(call.func) == 'print':
+                printed.append(interp.value(call.args[0], e) if call.args else '')
+                return (True, None)
+            return None
+        try:
+            finals = _I(call_hook=hook_p, resolver=_resolver, try_normal_path=True).run(pr.body, env)
+        except _Unknown as ex:
+            raise AnalysisError('OutputBuffer._print cannot be interpreted: %s' % ex)
+        if len(finals) != 1 or finals[0].get('<forks>'):
+            raise AnalysisError('OutputBuffer._print: outcome depends on a condition the analysis does not model: %s' % [f.get('<forks>') for f in finals][:2])
+        fe = finals[0]
+        nrows += 1
+        rep.evals()
+        stored = list(fe.get('self.section', [])) + list(fe.get('self.buffer', [])) + printed
+        rank_ = levels_.index('info' if lvl == 'good' else lvl)
+        want_kept = ap_ or js_ or rank_ >= min_
+        kept = stored == ['<text>']
+        if js_ and not kept:
+            drops_json = True
+        if (kept != want_kept or (stored and stored != ['<text>'])) and not js_:
+            rows_bad.append((ap_, lvl, min_, 'buffered' if buffered else 'unbuffered', stored))
+        if buffered and kept and ((in_sec and fe.get('self.section') != ['<text>']) or (not in_sec and fe.get('self.buffer') != ['<text>'])):
+            rows_bad.append((ap_, lvl, min_, 'wrong buffer', stored))
+    rep.check('level-filter', 'filter condition: a line is dropped iff it is not always_print and its level ranks below the minimum (text mode, %d cases)' % nrows, not rows_bad, pr,
+              'filter condition is wrong: always_print=%s level %s minimum rank %s (%s) -> stored %s' % (rows_bad[0] if rows_bad else (None,) * 5), stmt='level filter table')
+    json_exempt = not drops_json
     cls = repo.cls('outputbuffer', 'OutputBuffer')
     readers = set()
     for n in ast.walk(cls):
@@ -95,12 +120,25 @@ def run(repo, rep, tier):
     levels = ce.lookup('outputbuffer', 'OutputBuffer.LEVELS')
     rep.check('level-filter', 'LEVELS is (info, warn, fail) in ascending severity', tuple(levels) == ('info', 'warn', 'fail'), cls, 'LEVELS is %s' % (levels,))
     gl = repo.func('outputbuffer', 'OutputBuffer.get_level')
-    rets = [unparse(r.value) for r in walk_no_nested(gl) if isinstance(r, ast.Return)]
-    rep.check('level-filter', 'get_level ranks by position in LEVELS (good == info)', 'self.LEVELS.index(cname)' in rets and "cname = 'info' if name == 'good' else name" in unparse(gl), gl, 'get_level changed: returns %s' % rets)
-    # text passed to _print is only wrapped in colour codes
-    sdefs = [n for n in walk_no_nested(pr) if isinstance(n, ast.Assign) and unparse(n.targets[0]) == 's']
-    ok = len(sdefs) == 1 and isinstance(sdefs[0].value, ast.BinOp) and isinstance(sdefs[0].value.left, ast.Constant) and '%s' in sdefs[0].value.left.value and 'self.use_colors' in ' '.join(unparse(t) for t, p, k in path_condition(sdefs[0]))
-    rep.check('level-filter', 'a printed line is altered only by colour codes', ok, sdefs[0] if sdefs else pr, '_print rewrites the line text')
+    got_gl = {}
+    for nm_ in ('info', 'warn', 'fail', 'good'):
+        try:
+            fin_ = _I(try_normal_path=True).run(gl.body, {'self': _Opq(), 'name': nm_, 'self.LEVELS': tuple(levels_), 'OutputBuffer.LEVELS': tuple(levels_), 'sys.maxsize': 2 ** 63 - 1})
+        except _Unknown as ex:
+            raise AnalysisError('OutputBuffer.get_level cannot be interpreted: %s' % ex)
+        got_gl[nm_] = [f_.get('<return>') for f_ in fin_]
+    rep.check('level-filter', 'get_level ranks by position in LEVELS (good == info)', got_gl == {'info': [0], 'warn': [1], 'fail': [2], 'good': [0]}, gl, 'get_level changed: returns %s' % got_gl)
+    # text passed to _print is only wrapped in colour codes: with colours on, the stored line still contains the text unchanged
+    env = {'self': _Opq(), 'level': 'fail', 's': '<text>', 'line_ended': True, 'always_print': False, 'self.json': False, 'self.__level': 0, 'self.use_colors': True, 'self.colors_supported': True,
+           'self.buffer_output': True, 'self.in_section': False, 'self.section': [], 'self.buffer': [], 'self.line_ended': True, 'self.LEVELS': tuple(levels_), 'OutputBuffer.LEVELS': tuple(levels_), 'sys.maxsize': 2 ** 63 - 1,
+           'self.COLORS': dict(ce.lookup('outputbuffer', 'OutputBuffer.COLORS')), 'OutputBuffer.COLORS': dict(ce.lookup('outputbuffer', 'OutputBuffer.COLORS'))}
+    try:
+        finals = _I(resolver=_resolver, try_normal_path=True).run(pr.body, env)
+    except _Unknown as ex:
+        raise AnalysisError('OutputBuffer._print (colours on) cannot be interpreted: %s' % ex)
+    got_ = [x for f_ in finals for x in f_.get('self.buffer', [])]
+    ok = bool(got_) and all(isinstance(x, str) and '<text>' in x and x.replace('<text>', '').isprintable() is False or x == '<text>' for x in got_)
+    rep.check('level-filter', 'a printed line is altered only by colour codes', ok, pr, '_print rewrites the line text: %r' % got_, stmt='colour wrapping')
     for meth in ('fail', 'warn', 'info', 'good'):
         f = repo.func('outputbuffer', 'OutputBuffer.' + meth)
         calls = [n for n in walk_no_nested(f) if isinstance(n, ast.Call) and unparse(n.func) == 'self._print']
@@ -153,7 +191,27 @@ def run(repo, rep, tier):
             if isinstance(n, ast.Call) and unparse(n.func) in ('out.write',):
                 rep.check('json', 'output() does not write the buffer itself', False, n, 'output() writes buffered text before the JSON document')
     rs = repo.func('outputbuffer', 'OutputBuffer.reset')
-    rep.check('json', 'reset() discards section and buffer', [unparse(s.value.func) for s in rs.body if isinstance(s, ast.Expr) and isinstance(s.value, ast.Call)] == ['self.flush_section', 'self.get_buffer'], rs, 'OutputBuffer.reset changed')
+    # reset() interpreted on a buffer with pending section and general lines: afterwards both are empty and nothing was printed
+    env_r = {'self': _Opq(), 'self.section': ['<pending section line>'], 'self.buffer': ['<pending line>'], 'self.in_section': False, 'self.json': True, 'self.buffer_output': True, 'self.line_ended': True}
+    printed_r = []
+
+    def hook_r(call, e, interp):
+        if unparse(call.func) == 'print':
+            printed_r.append(1)
+            return (True, None)
+        return None
+
+    def _res_r(call):
+        f = call.func
+        if isinstance(f, ast.Attribute) and isinstance(f.value, ast.Name) and f.value.id == 'self' and f.attr != 'reset' and repo.has_func('outputbuffer', 'OutputBuffer.' + f.attr):
+            return repo.func('outputbuffer', 'OutputBuffer.' + f.attr)
+        return None
+    try:
+        fin_r = _I(call_hook=hook_r, resolver=_res_r, try_normal_path=True).run(rs.body, env_r)
+    except _Unknown as ex:
+        raise AnalysisError('OutputBuffer.reset cannot be interpreted: %s' % ex)
+    ok_r = len(fin_r) == 1 and not fin_r[0].get('<forks>') and fin_r[0].get('self.section') == [] and fin_r[0].get('self.buffer') == [] and not printed_r
+    rep.check('json', 'reset() discards section and buffer', ok_r, rs, 'OutputBuffer.reset changed: afterwards section=%r buffer=%r, printed=%s' % (fin_r[0].get('self.section') if fin_r else None, fin_r[0].get('self.buffer') if fin_r else None, bool(printed_r)))
     # colours off in JSON mode before the scan
     for fn, scan in (('main', 'audit'), ('target_worker_thread', 'audit')):
         f = repo.func('ssh_audit', fn)
